@@ -3,5 +3,7 @@ let () = serve (fun fn req ->
   match fn with
   | "format" -> JStr (string_of_bytes (format (jz (jfield req "n"))))
   | "parse" -> of_option of_n (parse (jbytes (jfield req "s")))
+  | "effective" -> of_option (fun b -> JStr (string_of_bytes b))
+                   (effective (jbytes (jfield req "amount")) (SL.map jbytes (jlist (jfield req "supports"))))
   | "dec_exact" -> of_option (fun (m, k) -> JArr [of_z m; of_n k]) (dec_exact (jbytes (jfield req "s")))
   | _ -> raise (Model_error ("unknown fn " ^ fn)))
